@@ -398,6 +398,30 @@ func (s *listSUT) Apply(e core.Ev) (any, any) {
 			s.removed[i] = true
 		}
 		return res("ok", v), s.st()
+	case "RangeMut":
+		// an iteration whose callback removes element h at its k-th call
+		i, k, cnt := core.Int(e, "h"), core.Int(e, "k"), 0
+		vis := []int{}
+		cb := func(v int) error {
+			cnt++
+			vis = append(vis, v)
+			if cnt == k {
+				l.Remove(s.h(e, "h"))
+				if s.owns(li, i) {
+					s.removed[i] = true
+				}
+			}
+			if cnt > 64 {
+				return errStop // (an iteration that does not end is cut off)
+			}
+			return nil
+		}
+		if core.Bool(e, "fwd") {
+			_ = l.ForEach(cb)
+		} else {
+			_ = l.ForEachReverse(cb)
+		}
+		return res("ok", core.Seq(vis)), s.st()
 	case "MoveToFront":
 		s.useStale(li, core.Int(e, "h"))
 		l.MoveToFront(s.h(e, "h"))
